@@ -486,3 +486,8 @@ func sortedKeys(m map[string]string) []string {
 	sort.Strings(out)
 	return out
 }
+
+// FuzzC15 lets the coverage-guided fuzzer drive the reference-tree generator.
+func FuzzC15(f *testing.F) {
+	f.Fuzz(rapid.MakeFuzz(ev.FuzzProp("C15", ev.Sub[c15Case]{Name: "tree", Gen: genC15, Oracle: oracleC15})))
+}
